@@ -5645,3 +5645,79 @@ def handover_rules(ctx):
     f = ctx.fn('TableTreeMut::clear_pending_table_update')
     if f is not None:
         call_rule(ctx, 'TableTreeMut::clear_pending_table_update', 'BTreeMap::remove', 'opening a table takes its staged update out', exact=1, exits='any', arg_from=[(1, ('arg', 'name'))])
+
+
+def _field_mut_users(facts, field):
+    """functions that take a mutable borrow of, or assign to, a place going through `.field`"""
+    out = {}
+    for f in facts.fn_list:
+        for bi, b in enumerate(f.blocks):
+            if b['c']:
+                continue
+            for st in b['s']:
+                if st[0] != 'a':
+                    continue
+                hit = False
+                if ('.' + field) in st[1][1]:
+                    hit = True
+                rv = st[2]
+                if isinstance(rv, dict) and rv.get('k') == 'ref' and rv.get('m') and ('.' + field) in rv['p'][1]:
+                    hit = True
+                if hit:
+                    out.setdefault(f.path, (f, st[3]))
+    return out
+
+
+def round6_rules(ctx):
+    # --- allocation records carry the id of the transaction that made the allocation
+    ctx.set_rule('C06.R3', 'every allocation reaches DATA_ALLOCATED_TABLE under the id of the transaction that made it')
+    f = ctx.fn(WT + '::flush_data_allocated_pages')
+    if f is not None:
+        we = ctx.sites(f, WT + '::write_allocated_pages_entry', exact=2)
+        carried, own = [], []
+        for p in we:
+            a = p.call.t['a']
+            id_from_take = core.flows_from_call(f, a[1], TM + '::take_unpersisted_allocations') if a[1][0] != 'k' else False
+            pg_from_take = core.flows_from_call(f, a[2], TM + '::take_unpersisted_allocations') if a[2][0] != 'k' else False
+            if pg_from_take:
+                carried.append((p, id_from_take))
+            else:
+                own.append((p, id_from_take))
+        ok_ = len(carried) == 1 and len(own) == 1
+        ctx._ob(ok_, ctx.sample('sites', f, f.line, 'one record per carried-over transaction, one for this transaction'))
+        if not ok_:
+            ctx.violate('shape|%s|allocated-records' % f.path, 'expected one write of the carried-over allocations and one of this transaction\'s own (found %d/%d)' % (len(carried), len(own)), f, f.line)
+        for p, idf in carried:
+            ctx._ob(idf, ctx.sample('flow', f, p.line, 'carried-over allocations keep the id of the non-durable transaction that made them'))
+            if not idf:
+                ctx.violate('flow|%s|carried-id' % f.path, 'allocations carried over from earlier non-durable commits are recorded under an id that does not come from take_unpersisted_allocations: a savepoint taken between those commits and this one would not undo / would wrongly undo them', f, p.line)
+        for p, idf in own:
+            good = (not idf) and core.flows_from_arg(f, p.call.t['a'][2], 'data_allocated_pages')
+            S_ = core.sym(f)
+            d = S_.describe(S_.operand(p.call.t['a'][1])) if p.call.t['a'][1][0] != 'k' else ''
+            good = good and d.endswith('transaction_id')
+            ctx._ob(good, ctx.sample('flow', f, p.line, 'this transaction\'s allocations are recorded under self.transaction_id'))
+            if not good:
+                ctx.violate('flow|%s|own-id' % f.path, 'this transaction\'s own allocations must be recorded under self.transaction_id (found `%s`)' % d, f, p.line)
+    # --- per-transaction savepoint lists: who may change them
+    ctx.set_rule('C05.R12', 'the created / deleted / invalidated savepoint lists change only where they are recorded and where the transaction ends')
+    STS = 'transactions::SavepointTransactionState::'
+    table = {
+        'created_persistent': {'record_created', 'apply_on_commit', 'apply_on_abort'},
+        'deleted_persistent': {'record_deleted', 'apply_on_commit', 'apply_on_abort'},
+        'invalidated': {'record_invalidated', 'apply_on_commit', 'apply_on_abort'},
+    }
+    if ctx.fn('SavepointTransactionState::record_created') is not None:
+        for field, allowed in sorted(table.items()):
+            users = {p: v for p, v in _field_mut_users(ctx.facts, field).items() if p.startswith(STS) or field != 'invalidated'}
+            names = {p[len(STS):].split('::')[0] for p in users if p.startswith(STS)}
+            miss = allowed - names
+            ctx._ob(not miss, ctx.sample('writers', ctx.fn('SavepointTransactionState::record_created'), None, '%s is changed by %s' % (field, sorted(names))))
+            if miss:
+                ctx.violate('floor|SavepointTransactionState|%s|%s' % (field, '+'.join(sorted(miss))), 'expected `%s` to be changed by %s; missing %s' % (field, sorted(allowed), sorted(miss)))
+            for p, (fn_, line) in sorted(users.items()):
+                nm = p[len(STS):].split('::')[0] if p.startswith(STS) else p
+                good = nm in allowed
+                ctx._ob(good)
+                if not good:
+                    ctx.violate('who-may-write|%s|%s' % (p, field), '`%s` changes `%s`: a savepoint created (deleted) in this transaction must stay on its list until the transaction ends, or abort (commit) will not release its tracker registration' % (nm, field), fn_, line)
